@@ -291,6 +291,18 @@ class PureRun:
         elif what == "genstep":
             s, _ = ps.j_reset(ps.jax.random.PRNGKey(int(n)))
             ps.j_step(s, ps.srv.action_spec.generate_value())
+        elif what == "wrappers":
+            # another client drives the same object through the library's wrappers (plain Python calls), then the server's
+            # functions are traced anew: whatever the wrappers left behind - on the object, in module-level defaults shared by
+            # all timesteps - would now flow into the answers to ordinary requests
+            from jumanji.wrappers import AutoResetWrapper, VmapWrapper
+
+            key = ps.jax.random.PRNGKey(int(n))
+            w = AutoResetWrapper(ps.srv, next_obs_in_extras=True)
+            s, _ = w.reset(key)
+            w.step(s, ps.srv.action_spec.generate_value())
+            VmapWrapper(ps.srv).reset(ps.jax.random.split(key, 2))
+            ps.boot(same_object=True)
 
     def crash(self, clear: bool) -> None:
         """CRASH_RESTART: the Environment object and every compiled function are lost; only the clients'
@@ -440,7 +452,7 @@ def generate_and_run(ps: PureSys, rng: np.random.Generator, stats: Stats, tier: 
                 emit(["retrace"])
                 continue
             if r < 0.10:
-                emit(["decoy", str(rng.choice(["specs", "repr", "reset", "genstep"])), int(rng.integers(0, 1000))])
+                emit(["decoy", str(rng.choice(["specs", "repr", "reset", "genstep", "wrappers"])), int(rng.integers(0, 1000))])
                 continue
             if r < 0.22 and run.log:
                 emit(["dup", int(rng.integers(0, len(run.log))), "EAGER" if rng.random() < eager_p else "JIT"])
@@ -496,14 +508,24 @@ def history_digest(adapter: Any, cfg: Dict[str, Any], seed: int, n_keys: int = 3
     reset, step = jax.jit(env.reset), jax.jit(env.step)
     rng = util.sub_rng(seed, "c02xhist", adapter.name, cfg["id"])
     out: List[str] = []
-    for _ in range(n_keys):
+    for k in range(n_keys):
         s, ts = reset(jax.random.PRNGKey(int(rng.integers(0, 2**31 - 1))))
         out.append(util.tree_digest(util.to_np((s, ts))))
-        for _t in range(n_steps):
+        # the last key is played purposefully and for longer (completion-driving policy): transitions that only occur deep
+        # into an episode - a delivery, a refill, a line clear - are part of the fixed request sequence too
+        deep = k == n_keys - 1 and n_keys > 1
+        for _t in range(40 if deep else n_steps):
             if int(np.asarray(ts.step_type)) == 2:
                 break
             m = adapter.env_mask(util.to_np(ts.observation)) if adapter.mask_mode else None
-            a = adapter.pick(m, rng)[0] if (m is not None and m.any()) else adapter.inspec_action(env, rng)
+            a = None
+            if deep:
+                try:
+                    a = adapter.policy_complete(util.to_np(s), env, rng, m if (m is None or m.any()) else None)
+                except Exception:  # noqa: BLE001  (a policy that cannot cope with this state: fall back to the mask)
+                    a = None
+            if a is None:
+                a = adapter.pick(m, rng)[0] if (m is not None and m.any()) else adapter.inspec_action(env, rng)
             s, ts = step(s, jnp.asarray(a, dtype=env.action_spec.dtype))
             out.append(util.tree_digest(util.to_np((s, ts))))
     return out
